@@ -225,6 +225,8 @@ def exec_case(mod, case, ctx):
     """Returns None, or a Violation. Anything else escaping run_case is a harness error, except that
     property modules convert unexpected exceptions of the code under test into Violations themselves."""
     limit = getattr(mod, "CASE_FUEL", 3000000)
+    if callable(limit):
+        limit = limit(case)     # a module may scale the budget with the size of the case
     try:
         if limit:
             # backstop: a whole case may execute at most `limit` source lines of the code under test
